@@ -176,7 +176,7 @@ def benign_files(prop):
         return []
     out = []
     cands = []
-    for sub in ('benign', 'benign_agents'):
+    for sub in ('benign', 'benign_agents', 'benign_twins'):
         base = os.path.join(core.VERIF, 'controls', sub)
         if os.path.isdir(base):
             cands += [os.path.join(base, fn) for fn in sorted(os.listdir(base)) if fn.endswith('.diff')]
